@@ -31,11 +31,14 @@ KINDS = {
     "B": 'assert {ok = idf(%d), desc = "b"};',          # ok not a boolean (hidden from the checker)
     "D": 'assert {ok = idf(true)};%.0s',                # desc missing
     "E": 'let e%d = fail "boom";',                      # evaluation error: nothing after it runs
+    "I": 'let i%d = (import "./no_such_helper.ucg").x;',      # an import that cannot be loaded: the file does not build (nor does the next file that tries)
+    "J": 'let j%d = (import "./broken_helper.ucg").x;',       # an import with a syntax error: the same
+    "A": 'let a%d = (import "./lib_failing_assert.ucg").x;',  # a library with a failing assertion of its own: evaluated in this file, so it counts here
     "L": 'let v%d = 1 + 1;',                            # an ordinary statement
     "n": 'assert %d;',                                  # not a tuple, visible to the checker: the file does not build
     "b": 'assert {ok = %d, desc = "b"};',               # ok not a boolean, visible to the checker
 }
-ASSERT_OK = {"T": True, "F": False, "N": False, "B": False, "D": False}
+ASSERT_OK = {"T": True, "F": False, "N": False, "B": False, "D": False, "A": False}
 STATIC = "nb"
 # An identity the static checker cannot see through (a plain `func (x) => x` is typed as its
 # argument since the checker binds a callee's parameters at the call): the select's NULL default
@@ -55,7 +58,7 @@ def model_file(kinds):
         # rejected by the type checker before anything is evaluated
         return {"builds": False, "verdict": False, "log": []}
     for k in kinds:
-        if k == "E":
+        if k in "EIJ":
             builds = False
             break
         if k in ASSERT_OK:
@@ -67,6 +70,11 @@ def model_file(kinds):
 REPRESENTATIVE = {
     "pass": "T", "pass2": "TT", "fail": "F", "malformed": "N", "builderr": "TE", "noassert": "L", "passfail": "TF",
 }
+# files that share an import which cannot be loaded (used in their own sequences, see run())
+SHARED_BROKEN = {"missing1": "IT", "missing2": "TI", "broken1": "JT", "broken2": "TJ", "libassert1": "AT", "libassert2": "TA"}
+LIB_FAILING_ASSERT = 'let x = 1;\nassert {ok = false, desc = "library self check"};\n'
+REPRESENTATIVE.update(SHARED_BROKEN)
+BROKEN_HELPER = "let x = ;\n"
 
 
 def parse_output(stdout, stderr, files):
@@ -128,6 +136,8 @@ def check_trace(files, order, mode, rc, out, err):
         viol.append(("exit-status", {"expected": want_rc, "observed": rc}))
     for pos, n in enumerate(order):
         m = models[n]
+        # a file whose failing assertion sits in a library that an earlier file of the run imported too
+        tag = ":assertion-in-shared-import" if ("A" in files[n] and any("A" in files[x] for x in order[:pos])) else ""
         key = n if mode == "args" else None
         sec = None
         for k in sections:
@@ -142,10 +152,10 @@ def check_trace(files, order, mode, rc, out, err):
         if m["builds"]:
             want_line = "Pass" if m["verdict"] else "Fail"
             if sec["verdict_line"] != want_line:
-                viol.append(("verdict:%s-reported-%s:%s" % (want_line, sec["verdict_line"], hist), {"file": n, "kinds": files[n]}))
+                viol.append(("verdict:%s-reported-%s%s:%s" % (want_line, sec["verdict_line"], tag, hist), {"file": n, "kinds": files[n]}))
             # log: every evaluated assertion exactly once, in this file's section
             if sec["ok"] != sum(1 for x in m["log"] if x) or sec["notok"] != sum(1 for x in m["log"] if not x):
-                viol.append(("log:%s" % hist, {"file": n, "kinds": files[n], "expected_ok": sum(1 for x in m["log"] if x),
+                viol.append(("log%s:%s" % (tag, hist), {"file": n, "kinds": files[n], "expected_ok": sum(1 for x in m["log"] if x),
                                                 "expected_not_ok": sum(1 for x in m["log"] if not x), "observed_ok": sec["ok"], "observed_not_ok": sec["notok"]}))
         else:
             if sec["verdict_line"] == "Pass":
@@ -157,7 +167,7 @@ def check_trace(files, order, mode, rc, out, err):
             if os.path.basename(k) == n:
                 got = v
         if got != want_sum:
-            viol.append(("summary:%s-reported-%s:%s" % (want_sum, got, hist), {"file": n}))
+            viol.append(("summary:%s-reported-%s%s:%s" % (want_sum, got, tag, hist), {"file": n}))
     return viol
 
 
@@ -197,6 +207,10 @@ def work_seq(chunk):
                 # nested: the files are spread over the directory, a sub-directory and one below that
                 sub = ["", "sub", os.path.join("sub", "deep")][(i + (1 if mode.endswith("-1") else 0)) % 3] if mode.startswith("recursive-nested") else ""
                 os.makedirs(os.path.join(d, sub), exist_ok=True)
+                with open(os.path.join(d, sub, "broken_helper.ucg"), "w") as f:
+                    f.write(BROKEN_HELPER)
+                with open(os.path.join(d, sub, "lib_failing_assert.ucg"), "w") as f:
+                    f.write(LIB_FAILING_ASSERT)
                 with open(os.path.join(d, sub, fn), "w") as f:
                     f.write(file_text(REPRESENTATIVE[n]))
             names = ["%s_test.ucg" % n for n in order]
@@ -224,6 +238,10 @@ def work_e2(chunk):
     d = tempfile.mkdtemp(prefix="ucgverif-c13e2-")
     try:
         paths = {}
+        with open(os.path.join(d, "broken_helper.ucg"), "w") as f:
+            f.write(BROKEN_HELPER)
+        with open(os.path.join(d, "lib_failing_assert.ucg"), "w") as f:
+            f.write(LIB_FAILING_ASSERT)
         for n, kinds in REPRESENTATIVE.items():
             p = os.path.join(d, "%s_test.ucg" % n)
             with open(p, "w") as f:
@@ -252,7 +270,7 @@ def work_e2(chunk):
                     obs = observe(rs)
                     if obs != baseline[n]:
                         earlier = ",".join("fail" if not model_file(REPRESENTATIVE[x])["verdict"] else "pass" for x in history[:-1])
-                        viol.append(("e2:result-depends-on-history:after[%s]" % earlier,
+                        viol.append(("e2:result-depends-on-history%s:after[%s]" % (":assertion-in-shared-import" if "A" in REPRESENTATIVE[n] else "", earlier),
                                      {"history": list(history)}, {"alone": baseline[n], "in_history": obs, "file": n}))
                         hist["e2:VIOLATION"] = hist.get("e2:VIOLATION", 0) + 1
                     else:
@@ -271,11 +289,14 @@ def run(ctx):
     kinds = "TFNBDE"
     files = [""] + ["".join(p) for ln in range(1, maxlen + 1) for p in itertools.product(kinds, repeat=ln)]
     files += ["".join(p) for ln in range(1, 3) for p in itertools.product(kinds + STATIC, repeat=ln) if any(c in STATIC for c in p)]
-    reps = list(REPRESENTATIVE)
-    seqs = [(o, "args") for ln in range(1, seqlen + 1) for o in itertools.permutations(reps, ln)]
+    reps = [r for r in REPRESENTATIVE if r not in SHARED_BROKEN]
+    shared = list(SHARED_BROKEN) + ["pass", "fail"]
+    seqs = [(o, "args") for ln in range(1, 4) for o in itertools.permutations(shared, ln) if any(x in SHARED_BROKEN for x in o)]
+    seqs += [(o, "args") for ln in range(1, seqlen + 1) for o in itertools.permutations(reps, ln)]
     seqs += [(o, "recursive") for ln in range(2, 4) for o in itertools.combinations(reps, ln)]
     seqs += [(o, mode) for ln in range(1, 4) for o in itertools.permutations(reps, ln) for mode in ("recursive-nested", "recursive-nested-1")]
     histories = [h for ln in range(1, e2depth + 1) for h in itertools.product(reps, repeat=ln)]
+    histories += [h for ln in range(1, 4) for h in itertools.product(shared, repeat=ln) if any(x in SHARED_BROKEN for x in h)]
     ctx.bounds = {"file_length": maxlen, "assertion_kinds": len(kinds), "sequence_length": seqlen, "representative_files": len(reps), "e2_depth": e2depth}
     viol = []
     states = set()
